@@ -217,8 +217,183 @@ def case_framing(lens, eof_at):
     return hx.explore_case(path)
 
 
+# --------------------------------------------------------------------------
+# board header and hands (table manager -> client)
+# --------------------------------------------------------------------------
+def case_header():
+    from bridge_env import Hands, Player, Vul
+    from bridge_env.network_bridge.client import Client
+    from bridge_env.network_bridge.server import Server
+    from harness import proto
+
+    def path(eng):
+        num, dealer, vul = z3.Int('board_number'), z3.Int('dealer'), z3.Int('vul')
+        eng.assume(z3.And(1 <= num, num <= 9999, 1 <= dealer, dealer <= 4, 1 <= vul, vul <= 4))
+        wires = {}
+        proto.install(eng, wires)
+        qs = {Player(p): proto.queue() for p in range(1, 5)}
+        srv = SObj(Server, dict(sent_message_queues=qs, players_event={}))
+        eng.stubs[Server._sync_event] = lambda e, a, k: None
+        eng.stubs[Server.hand_to_str] = lambda e, a, k: 'S -. H -. D -. C -.'
+        hands = SObj(Hands, {n: symx.Opaque('hand', i) for i, n in enumerate(('north', 'east', 'south', 'west'))})
+        state = {}
+
+        def cex(m):
+            return {'kind': 'header', 'number': hx.mval(m, num), 'dealer': hx.mval(m, dealer), 'vul': hx.mval(m, vul),
+                    'message': text_of(m, state['msg']) if 'msg' in state else None}
+        k, _ = _call(eng, Server.deal, srv, SInt(num), SEnum(Player, dealer), SEnum(Vul, vul), hands, None)
+        if k == 'raise':
+            return dict(outcome='raise', cex=cex, checks=[(f'Server.deal does not raise ({_!r})', False)])
+        chk = []
+        for p in range(1, 5):
+            items = qs[Player(p)].attrs['items']
+            if len(items) != 2:
+                return dict(outcome='bad', cex=cex, checks=[('every seat is queued a header and a hand message', False)])
+        hdr = qs[Player.N].attrs['items'][0]
+        same = []
+        for p in range(2, 5):
+            e = sstr.eq(qs[Player(p)].attrs['items'][0], hdr)
+            same.append(e if not isinstance(e, bool) else z3.BoolVal(e))
+        chk.append(('every seat gets the same header', z3.And(same)))
+        state['msg'] = hdr
+        k, back = _call(eng, Client.parse_board, hdr)
+        if k == 'raise':
+            return dict(outcome='raise', cex=cex, checks=chk + [(f'parse_board understands the header ({back})', False)])
+        n2, d2, v2 = back
+        chk.append(('parse_board(header) = configured board number, dealer, vulnerability',
+                    z3.And(zint(n2) == num, zenum(d2) == dealer, zenum(v2) == vul)))
+        return dict(outcome='header', cex=cex, checks=chk, sample=repr(hdr))
+    return hx.explore_case(path, dict(max_paths=5000))
+
+
+def small_and_sampled_shapes(tier):
+    small = [s for s in itertools.product(range(5), repeat=4) if sum(s) <= 4]
+    from harness import C14
+    full = C14.all_shapes()
+    if tier == 'thorough':
+        return small, full
+    rnd = random.Random(common.SEED + 19)
+    must = [(13, 0, 0, 0), (0, 0, 0, 13), (4, 3, 3, 3), (0, 5, 0, 8), (1, 0, 12, 0)]
+    return small[::3], must + rnd.sample([s for s in full if s not in must], 11)
+
+
+def case_hand(shapes):
+    from bridge_env import Card
+    from bridge_env.network_bridge.client import Client
+    from bridge_env.network_bridge.server import Server
+    from harness import C14
+
+    def one(shape):
+        def path(eng):
+            eng.summarize.add(Card.rank_int_to_str.__func__)
+            eng.summarize.add(Card.rank_str_to_int.__func__)
+            hand, desc = C14.explicit_hand(eng, shape)
+            who = 'Dummy' if eng.decide(z3.Bool('is_dummy_message')) else 'West'
+            state = {}
+
+            def cex(m):
+                return {'kind': 'hand', 'cards': [(s - 1) * 13 + hx.mval(m, r) - 2 for r, s in desc], 'who': who,
+                        'message': text_of(m, state['msg']) if 'msg' in state else None}
+            k, txt = _call(eng, Server.hand_to_str, hand)
+            if k == 'raise':
+                return dict(outcome='raise', cex=cex, checks=[('hand_to_str does not raise', False)])
+            msg = sstr.concat(eng, [who, "'s cards : ", txt])
+            state['msg'] = msg
+            k, hs = _call(eng, Client.parse_cards, msg, who)
+            if k == 'raise':
+                return dict(outcome='raise', cex=cex, checks=[(f'parse_cards understands the message ({hs})', False)])
+            k, back = _call(eng, Client.parse_hand, hs)
+            if k == 'raise':
+                return dict(outcome='raise', cex=cex, checks=[(f'parse_hand understands the hand text ({back})', False)])
+            hset, hvec = back
+            if not isinstance(hset, CardSet):
+                hset = cardmod.cardset_from_cards(eng, hset)
+            bits = [z3.Or([cardmod.card_idx(c) == i for c in hand]) if hand else z3.BoolVal(False) for i in range(52)]
+            chk = [('parse_hand(parse_cards(message)) is the hand that was sent (voids included)',
+                    z3.And([hset.bits[i] == bits[i] for i in range(52)])),
+                   ('the 52-slot vector marks exactly those cards', z3.And([zint(hvec[i]) == z3.If(bits[i], 1, 0) for i in range(52)]))]
+            return dict(outcome='hand message', cex=cex, checks=chk, sample=repr(msg))
+        return path
+    common.setup_path()
+    res = None
+    for shape in shapes:
+        r = hx.explore_case(one(tuple(shape)), dict(max_paths=2000))
+        if res is None:
+            res = r
+        else:
+            for k, v in r.stats.items():
+                if isinstance(v, (int, float)):
+                    res.stats[k] = res.stats.get(k, 0) + v
+            for k, v in r.outcomes.items():
+                res.outcomes[k] = res.outcomes.get(k, 0) + v
+            res.cex += r.cex
+            res.samples += r.samples[:1]
+            if r.status != 'ok' and res.status == 'ok':
+                res.status, res.detail = r.status, f'shape {shape}: ' + r.detail
+    res.samples = res.samples[:3]
+    if res.status == 'ok':
+        res.detail = f'{len(shapes)} suit shapes, outcomes {res.outcomes}'
+    return res
+
+
+def case_conninfo(L):
+    from bridge_env import Player
+    from bridge_env.network_bridge.client import Client
+    from bridge_env.network_bridge.server import PlayerThread
+    from harness import proto
+
+    def path(eng):
+        seat, version = z3.Int('seat'), z3.Int('version')
+        eng.assume(z3.And(1 <= seat, seat <= 4, 0 <= version, version <= 9999))
+        team = proto.free_text(eng, 'team', L)
+        wires = {}
+        proto.install(eng, wires)
+        client = SObj(Client, dict(player=SEnum(Player, seat), team_name=team, PROTOCOL_VERSION=SInt(version),
+                                   opponent_team_name=None, ip_address='x', port=0))
+        w = proto.Wire()
+        wires[id(client)] = w
+        state = {}
+
+        def cex(m):
+            return {'kind': 'conninfo', 'seat': hx.mval(m, seat), 'version': hx.mval(m, version), 'team': text_of(m, team),
+                    'message': text_of(m, state['msg']) if 'msg' in state else None}
+        r = proto.run_until_blocked(eng, Client._connect, [client])
+        if r[0] != 'blocked' or len(w.outbox) != 1:
+            return dict(outcome='bad', cex=cex, checks=[('the client sends one connection request and waits for the reply', False)])
+        line = w.outbox[0]
+        # letter case of the fixed words is free; the quoted team text is symbolic anyway
+        ch = sstr.chars_of(line)
+        q1 = ch.index(34)
+        q2 = len(ch) - 1 - ch[::-1].index(34)
+        head, _ = flip_case(eng, sstr.mk(ch[:q1]), 'a')
+        tail, _ = flip_case(eng, sstr.mk(ch[q2 + 1:]), 'b')
+        line2 = sstr.concat(eng, [head, sstr.mk(ch[q1:q2 + 1]), tail])
+        state['msg'] = line2
+        k, back = _call(eng, PlayerThread.parse_connection_info, line2)
+        if k == 'raise':
+            return dict(outcome='raise', cex=cex, checks=[(f'parse_connection_info understands the request ({back})', False)])
+        t2, p2, v2 = back
+        e = sstr.eq(t2, team)
+        return dict(outcome='connection request', cex=cex, sample=repr(line2),
+                    checks=[('team text, seat and protocol version are read back as sent',
+                             z3.And(e if not isinstance(e, bool) else z3.BoolVal(e), zenum(p2) == seat, zint(v2) == version))])
+    return hx.explore_case(path, dict(max_paths=5000))
+
+
 def cases(tier):
     cs = []
+    from harness import C20
+    cs.append((case_header, 'board header', {}))
+    small, big = small_and_sampled_shapes(tier)
+    n = 8 if tier != 'thorough' else 48
+    for i in range(n):
+        ch = (small + big)[i::n]
+        if ch:
+            cs.append((case_hand, f'hand messages, shapes chunk {i} ({len(ch)} shapes)', dict(shapes=ch)))
+    for L in ((0, 1, 3) if tier != 'thorough' else (0, 1, 2, 3, 5)):
+        cs.append((case_conninfo, f'connection request, team text of {L} characters', dict(L=L)))
+    for l in ([(3, 3, 2), (1, 1, 0), (0, 0, 1)] if tier != 'thorough' else [(3, 3, 2), (1, 1, 0), (0, 0, 1), (5, 5, 1), (1, 4, 4)]):
+        cs.append((C20.case_connect, f'admission dialogue texts (seated reply, Teams line), lengths {l}', dict(lens=l)))
     for a in ALERTS:
         cs.append((case_bid, f'call messages, alert suffix {a!r}', dict(alert=a)))
     for n in ('rank-suit', 'suit-rank'):
@@ -236,11 +411,14 @@ META = dict(
     level='model_checking',
     bounds=lambda tier: {'calls': '38 calls x 4 seats, every letter with a symbolic case bit, alert suffixes ' + repr(ALERTS),
                          'cards': '52 cards x 4 seats x 2 notations, symbolic case bits',
+                         'headers': 'board number 1..9999 (symbolic digits), 4 dealers, 4 vulnerabilities, symbolic case bits',
+                         'hands': 'hands of 0..4 cards (every suit shape) and ' + ('all 560' if tier == 'thorough' else '16 sampled') + ' 13-card suit shapes with symbolic ranks; "X\'s cards" and "Dummy\'s cards"',
+                         'team names': 'texts of <= 3 (quick) / 5 symbolic characters: any code point except " CR LF',
                          'framing': 'streams of <= 2 messages of <= 4 symbolic ASCII bytes (no CR inside a message), end of stream at every byte position'},
     stubs=['socket.recv(n): returns the next byte, or b\'\' at end of stream and ever after; socket.sendall appends to a buffer', 'logger calls skipped'],
     assumptions=['regular expressions are executed by the sre-semantics model in engine/sstr.py (IGNORECASE on symbolic characters is ASCII-only)',
                  'non-ASCII bytes in framing are outside the claim (UTF-8 continuation bytes are never 0x0D)'],
     rule='feasible paths of builder -> parser over symbolic values and symbolic characters',
     explanation='each end\'s builder is executed symbolically and its text (symbolic characters) is fed to the other end\'s real parser',
-    required_outcomes=['call message', 'card message', 'all received', 'stopped at end of stream'],
+    required_outcomes=['call message', 'card message', 'all received', 'stopped at end of stream', 'header', 'hand message', 'connection request', 'accepted'],
 )
